@@ -52,7 +52,7 @@ COMPONENTS = {
 
 OPS = ["set_weights", "set_means", "set_variances", "set_floor", "em_step", "em_step",
        "deepcopy", "pickle", "hdf5_from", "hdf5_load", "nudge_variances", "nudge_floor",
-       "em_many"]
+       "em_many", "aug_assign", "edit_reassign"]
 
 
 def setup():
@@ -104,6 +104,17 @@ def gen_case(rng, tier):
             # convergence, incremental adaptation): every step is a public setter call
             ops.append({"op": name, "eps": rng.choice([1e-9, 1e-7, 1e-6, 5e-6, 1e-4]),
                         "times": rng.randint(1, 40), "seed": rng.randint(0, 10 ** 6)})
+        elif name == "aug_assign":
+            # `m.attr *= k` / `m.attr += k`: Python reads the property, updates the array in
+            # place, and calls the setter with that same object
+            ops.append({"op": name, "attr": rng.choice(["variance_thresholds", "variances",
+                                                        "means", "weights"]),
+                        "how": rng.choice(["mul", "add"]),
+                        "k": rng.choice([0.3, 0.5, 2.0, 3.0, 10.0])})
+        elif name == "edit_reassign":
+            # the caller keeps the array it assigned, edits it in place and assigns it again
+            ops.append({"op": name, "attr": rng.choice(["variance_thresholds", "variances", "means"]),
+                        "k": rng.choice([0.3, 0.5, 2.0, 3.0, 10.0])})
         elif name == "nudge_floor":
             ops.append({"op": name, "eps": rng.choice([1e-9, 1e-7, 1e-6, 5e-6, 1e-4]),
                         "times": rng.randint(1, 10)})
@@ -249,6 +260,47 @@ def run_case(case, replay=None):
                         else:
                             m.fit(X)
                             rec.probe("em_step_numpy")
+                    elif name == "aug_assign":
+                        attr, k = o["attr"], o["k"]
+                        if attr == "weights" and o["how"] == "add":
+                            k = 0.25
+                        if attr == "variance_thresholds" and o["how"] == "add":
+                            k = k * float(np.mean(np.asarray(m.variances)))
+                        if attr == "means" and o["how"] == "add":
+                            k = k * float(np.sqrt(np.mean(np.asarray(m.variances))))
+                        if o["how"] == "mul":
+                            if attr == "variance_thresholds":
+                                m.variance_thresholds *= k
+                            elif attr == "variances":
+                                m.variances *= k
+                            elif attr == "means":
+                                m.means *= k
+                            else:
+                                m.weights *= k
+                        else:
+                            if attr == "variance_thresholds":
+                                m.variance_thresholds += k
+                            elif attr == "variances":
+                                m.variances += k
+                            elif attr == "means":
+                                m.means += k
+                            else:
+                                m.weights += k
+                        rec.probe("augmented_assignment")
+                        rec.probe("augmented_assignment_on_array_floors",
+                                  attr == "variance_thresholds"
+                                  and isinstance(m.variance_thresholds, np.ndarray))
+                    elif name == "edit_reassign":
+                        attr, k = o["attr"], o["k"]
+                        cur = getattr(m, attr)
+                        if isinstance(cur, np.ndarray) and cur.ndim > 0:
+                            keep = cur  # the object the machine currently holds
+                            if attr == "means":
+                                keep += k * np.sqrt(np.mean(np.asarray(m.variances)))
+                            else:
+                                keep *= k
+                            setattr(m, attr, keep)
+                            rec.probe("edited_array_reassigned")
                     elif name == "nudge_variances":
                         nrs = np.random.RandomState(o["seed"])
                         for _ in range(o["times"]):
